@@ -9,10 +9,14 @@ for d in seeded/${1:-*}/; do
   d=${d%/}; name=$(basename $d)
   [ -f $d/patch.diff ] || continue
   prop=${name%%-*}
-  if ! git -C /repo apply --check /verif/$d/patch.diff 2>/dev/null; then
+  if git -C /repo apply --check /verif/$d/patch.diff 2>/dev/null; then
+    git -C /repo apply /verif/$d/patch.diff
+  elif git -C /repo apply --3way /verif/$d/patch.diff >/dev/null 2>&1 && ! git -C /repo diff --name-only --diff-filter=U | grep -q .; then
+    git -C /repo reset -q
+  else
+    git -C /repo checkout -- . 2>/dev/null; git -C /repo reset -q --hard HEAD >/dev/null 2>&1
     printf "%s\t%s\tdoes-not-apply\t-\t-\n" $name $prop >> $out; continue
   fi
-  git -C /repo apply /verif/$d/patch.diff
   if ! (cd /repo && go build ./... ) >/dev/null 2>&1; then
     git -C /repo checkout -- . ; git -C /repo clean -fdq
     printf "%s\t%s\tdoes-not-build\t-\t-\n" $name $prop >> $out; continue
@@ -23,10 +27,16 @@ for d in seeded/${1:-*}/; do
     tier=thorough
     res=$(./check $prop thorough 2>&1 | grep -E "violation:|VIOLATION" | head -2)
   fi
+  if ! echo "$res" | grep -q VIOLATION && [ -f $d/also_check ]; then
+    for q in $(cat $d/also_check); do
+      res=$(./check $q quick 2>&1 | grep -E "violation:|VIOLATION" | head -2)
+      if echo "$res" | grep -q VIOLATION; then tier="quick of $q"; break; fi
+    done
+  fi
   git -C /repo checkout -- . ; git -C /repo clean -fdq
   if echo "$res" | grep -q VIOLATION; then st=detected; else st=MISSED; tier=-; fi
   first=$(echo "$res" | grep "violation:" | head -1 | sed 's/^ *violation: //' | tr '\t' ' ' | cut -c1-220)
-  printf "%s\t%s\t%s\t%s\t%s\n" $name $prop $st $tier "$first" >> $out
+  printf "%s\t%s\t%s\t%s\t%s\n" "$name" "$prop" "$st" "$tier" "$first" >> $out
 done
 rm -f replays/*
 echo sweep-done
